@@ -129,8 +129,22 @@ let uty_sx (t : Scan.unsigned_num_type) : string =
 let sty_sx (t : Scan.signed_num_type) : string =
   match t with Scan.I8 -> "i8" | Scan.I16 -> "i16" | Scan.I32 -> "i32" | Scan.I64 -> "i64" | Scan.UnspecifiedS -> "sunspec"
 
+let rec uconst_sx (c : ParseExpr.uconst) : string =
+  let list cs = String.concat "" (Stdlib.List.map (fun x -> " " ^ uconst_sx x) cs) in
+  match c with
+  | ParseExpr.CTrue -> "(ct)" | ParseExpr.CFalse -> "(cf)"
+  | ParseExpr.CNumUnsigned (n, t) -> Printf.sprintf "(cnu %s %s)" (string_of_n n) (uty_sx t)
+  | ParseExpr.CNumSigned (z, t) -> Printf.sprintf "(cns %s %s)" (string_of_z z) (sty_sx t)
+  | ParseExpr.CExternalValue (p, i) -> Printf.sprintf "(cext %s %s)" (str_of_codes p) (str_of_codes i)
+  | ParseExpr.CIdent s -> Printf.sprintf "(cid %s)" (str_of_codes s)
+  | ParseExpr.CMax cs -> Printf.sprintf "(cmax%s)" (list cs)
+  | ParseExpr.CMin cs -> Printf.sprintf "(cmin%s)" (list cs)
+  | ParseExpr.CAdd (l, r) -> Printf.sprintf "(cadd %s %s)" (uconst_sx l) (uconst_sx r)
+  | ParseExpr.CSub (l, r) -> Printf.sprintf "(csub %s %s)" (uconst_sx l) (uconst_sx r)
+
 let rec utype_sx (ty : ParseExpr.utype) : string =
   match ty with
+  | ParseExpr.UTArrayConstExpr (t, c) -> Printf.sprintf "(arrce %s %s)" (utype_sx t) (uconst_sx c)
   | ParseExpr.UTBool -> "bool" | ParseExpr.UTUnsigned u -> uty_sx u | ParseExpr.UTSigned s -> sty_sx s
   | ParseExpr.UTNamed n -> Printf.sprintf "(named %s)" (str_of_codes n)
   | ParseExpr.UTTuple ts -> Printf.sprintf "(tuplety%s)" (String.concat "" (Stdlib.List.map (fun t -> " " ^ utype_sx t) ts))
@@ -209,6 +223,49 @@ and ustmt_sx (s : ParseExpr.ustmt) : string =
   | ParseExpr.SExpr e -> Printf.sprintf "(expr %s)" (uexpr_sx e)
 
 let rec nat_of_int n = if n <= 0 then Datatypes.O else Datatypes.S (nat_of_int (n - 1))
+
+(* (pprog id (src "program text")) -> (prog ..) | (err) | (outside) | (nofuel); maps sorted by name as on the Rust side *)
+let job_pprog (job : Sx.t) : string =
+  let text = Sx.bytes (Stdlib.List.hd (Sx.args (Sx.field job "src"))) in
+  let sorted l = Stdlib.List.sort (fun (a, _) (b, _) -> compare a b) (Stdlib.List.map (fun (k, v) -> (str_of_codes k, v)) l) in
+  match Scan.scan_text (bytes_of_string text) with
+  | Util.Ok (Scan.STokens ts) ->
+    (match ParseExpr.parse_program_text (nat_of_int (80 + 40 * Stdlib.List.length ts)) ts with
+     | ParseExpr.POk (p, _) ->
+       let b = Buffer.create 1024 in
+       Buffer.add_string b "(prog (consts";
+       Stdlib.List.iter (fun (k, c) ->
+         Buffer.add_string b (Printf.sprintf " (%s %s %s)" k (utype_sx c.ParseExpr.c_ty) (uconst_sx c.ParseExpr.c_value)))
+         (sorted p.ParseExpr.up_const_defs);
+       Buffer.add_string b ") (structs";
+       Stdlib.List.iter (fun (k, fs) ->
+         Buffer.add_string b (Printf.sprintf " (%s%s)" k
+           (String.concat "" (Stdlib.List.map (fun (f, t) -> Printf.sprintf " (%s %s)" (str_of_codes f) (utype_sx t)) fs))))
+         (sorted p.ParseExpr.up_struct_defs);
+       Buffer.add_string b ") (enums";
+       Stdlib.List.iter (fun (k, vs) ->
+         Buffer.add_string b (Printf.sprintf " (%s%s)" k
+           (String.concat "" (Stdlib.List.map (fun v -> match v with
+              | ParseExpr.VUnit n -> Printf.sprintf " (vunit %s)" (str_of_codes n)
+              | ParseExpr.VTuple (n, ts) ->
+                Printf.sprintf " (vtuple %s%s)" (str_of_codes n) (String.concat "" (Stdlib.List.map (fun t -> " " ^ utype_sx t) ts))) vs))))
+         (sorted p.ParseExpr.up_enum_defs);
+       Buffer.add_string b ") (fns";
+       Stdlib.List.iter (fun (k, f) ->
+         let ps = String.concat "" (Stdlib.List.map (fun q ->
+           Printf.sprintf " (%s %s %s)" (if q.ParseExpr.p_mutable then "mut" else "imm") (str_of_codes q.ParseExpr.p_name)
+             (utype_sx q.ParseExpr.p_ty)) f.ParseExpr.f_params) in
+         Buffer.add_string b (Printf.sprintf " (fn %s %s %s %s (params%s) (body%s))" k (str_of_codes f.ParseExpr.f_identifier)
+           (if f.ParseExpr.f_is_pub then "pub" else "priv") (utype_sx f.ParseExpr.f_ty) ps
+           (String.concat "" (Stdlib.List.map (fun x -> " " ^ ustmt_sx x) f.ParseExpr.f_body))))
+         (sorted p.ParseExpr.up_fn_defs);
+       Buffer.add_string b "))";
+       Buffer.contents b
+     | ParseExpr.PErr -> "(err)"
+     | ParseExpr.PNoFuel -> "(nofuel)"
+     | ParseExpr.POutside _ -> "(outside)")
+  | Util.Ok (Scan.SErrors _) -> "(err)"
+  | _ -> "(crash)"
 
 (* (pblock id (src "body text")) -> (stmts ..) | (err) | (outside) | (nofuel) *)
 let job_pblock (job : Sx.t) : string =
